@@ -53,6 +53,7 @@ func Main(t *testing.T, prop string, gen Gen, rule string, nontrivial func(Cfg, 
 	var cases []string
 	distinct := map[string]bool{}
 	shrunk := map[string]bool{}
+	sweepPts := 0
 	for ji, j := range jobs {
 		r := CaseRng(j.rp.Seed, j.rp.Case)
 		rp := j.rp
@@ -97,7 +98,28 @@ func Main(t *testing.T, prop string, gen Gen, rule string, nontrivial func(Cfg, 
 				}
 			}
 			if it.T == "stop" && it.Crash {
-				res.Count(fmt.Sprintf("stop:cut-after-%d-files", it.K))
+				o := obs[i]
+				switch {
+				case o.CutTorn > 0:
+					res.Count("stop:dies-inside-the-write-of-a-cache-file")
+				case o.CutTorn == 0 || (o.CutK > 0 && o.FOps[o.CutK-1].Op == "create"):
+					res.Count("stop:dies-after-creating-a-cache-file-before-writing-it")
+				case o.CutK > 0 && o.FOps[o.CutK-1].Op == "write":
+					res.Count("stop:dies-between-write-and-rename")
+				default:
+					res.Count("stop:dies-between-two-cache-files")
+				}
+				first := true
+				for _, p := range rp.History[:i] {
+					if p.T == "stop" {
+						first = false
+					}
+				}
+				if first {
+					res.Count("stop:cut-during-the-first-save-into-an-empty-directory")
+				} else {
+					res.Count("stop:cut-during-a-later-save")
+				}
 			}
 			res.Count(k)
 			res.Count("result:" + obs[i].Res)
@@ -123,8 +145,12 @@ func Main(t *testing.T, prop string, gen Gen, rule string, nontrivial func(Cfg, 
 			res.Count("history:crash-inside-commit-group")
 		}
 		if w.Or.cutStop {
-			res.Count("history:shutdown-cut-between-cache-files")
+			res.Count("history:shutdown-cut-inside-save-cache")
 		}
+		if w.Or.tornWrite {
+			res.Count("history:shutdown-cut-inside-the-write-of-a-cache-file")
+		}
+		sweepPts += w.Or.SweepPts
 		if w.Or.tampered {
 			res.Count("history:cache-file-damaged-by-hand")
 		}
@@ -168,6 +194,9 @@ func Main(t *testing.T, prop string, gen Gen, rule string, nontrivial func(Cfg, 
 			}
 			res.Samples = append(res.Samples, map[string]interface{}{"cfg": rp.Cfg, "history": rp.History, "observed": os})
 		}
+	}
+	if sweepPts > 0 {
+		res.Distribution["save-cache:crash-points-evaluated-against-LoadFromDisk(after-each-file-op+byte-prefixes-of-each-write)"] = sweepPts
 	}
 	res.Distinct = len(distinct)
 	res.Rule = rule
